@@ -374,7 +374,34 @@ def build_proofs(run, mod):
         if extra:
             run.fail("proof", "theorem %s depends on undeclared assumptions %s" % (t, extra))
             return
+    if run.tier == "thorough" and not hasattr(mod, "coqchk"):
+        coqchk(run)
     run.proof["ok"] = True
+
+
+def coqchk(run):
+    """Independent re-check of the property's .vo and everything it depends on; axioms of the whole context."""
+    cmd = ["coqchk", "-o", "-silent", "-Q", ".", LOGICAL, "%s.Props.%s" % (LOGICAL, run.pid)]
+    try:
+        p = subprocess.run(cmd, cwd=COQ, capture_output=True, text=True, timeout=1800)
+        out = p.stdout + p.stderr
+    except subprocess.TimeoutExpired:
+        run.note("coqchk: timed out after 1800 s")
+        return
+    m = re.search(r"\* Axioms:(.*?)\n\s*\n\* Constants/Inductives relying on type-in-type:(.*?)\n\s*\n"
+                  r"\* Constants/Inductives relying on unsafe \(co\)fixpoints:(.*?)\n\s*\n"
+                  r"\* Inductives whose positivity is assumed:(.*?)\n", out, re.S)
+    if p.returncode != 0 or not m:
+        run.fail("proof", "coqchk rejected the compiled development", {"log": out[-2000:]})
+        return
+    axioms = " ".join(m.group(1).split())
+    run.proof["coqchk"] = {"cmd": "cd /verif/coq && " + " ".join(cmd), "axioms": axioms,
+                           "type_in_type": " ".join(m.group(2).split()), "unsafe_fixpoints": " ".join(m.group(3).split()),
+                           "assumed_positivity": " ".join(m.group(4).split())}
+    run.note("coqchk -o: Axioms: %s; type-in-type: %s; unsafe fixpoints: %s; assumed positivity: %s" % (
+        axioms, " ".join(m.group(2).split()), " ".join(m.group(3).split()), " ".join(m.group(4).split())))
+    if any(" ".join(g.split()) != "<none>" for g in (m.group(2), m.group(3), m.group(4))):
+        run.fail("proof", "coqchk reports switched-off kernel checks", run.proof["coqchk"])
 
 
 def enclosing_statement(vfile, line):
